@@ -385,6 +385,7 @@ theorem inv_step {s : State} (hI : Inv s) (op : Op) : Inv (step s op).1 := by
   · exact hI
   · exact hI
   · exact inv_reserve hI _ _
+  · exact hI
 
 theorem inv_run {s : State} (hI : Inv s) (ops : List Op) : Inv (run s ops) := by
   induction ops generalizing s with
